@@ -262,3 +262,31 @@ def padding_check(ctx, recs, fields, count, tag):
                     ctx.violation("padding the description with %d isolated states changes the conditioned transitions of "
                                   "state %d: %r, unpadded %r" % (PAD, s, u, v), inp)
                     break
+
+
+def loglevel_check(ctx, recs, fields, count, tag):
+    """the same solve with the root logger at DEBUG (what `conditionalrewards.py -l DEBUG` sets): the solver's loops then
+    execute their logging branches too; the fields of this property must come out bit for bit the same"""
+    pool = [r for r in recs if r.op == "solve" and "timeout" not in r.res
+            and all(isinstance(row, list) for row in r.game["transition_list"])]
+    ctx.rng.shuffle(pool)
+    pool = pool[:count]
+    res = impl.run_cases([dict(op="solve", game=enc(r.game), prune=r.prune, share=bool(r.meta.get("share")), debug=True) for r in pool],
+                         limit=20, tag=tag + "dbg")
+    for r, x in zip(pool, res):
+        ctx.evaluations += 1
+        ctx.count("re-run at log level DEBUG")
+        if "timeout" in x:
+            continue
+        d = Rec(r.game, r.meta, r.prune, r.op, x)
+        inp = dict(r.inp(), log_level="DEBUG")
+        if r.ok != d.ok or (not r.ok and (r.res.get("exc"), r.res.get("msg")) != (x.get("exc"), x.get("msg"))):
+            ctx.violation("at log level DEBUG the outcome is %s, otherwise %s" % (d.describe(), r.describe()), inp)
+            continue
+        if not r.ok:
+            continue
+        for f in fields:
+            a, b = (d.pruned, r.pruned) if f == "pruned" else (d.out[FIELDS[f]], r.out[FIELDS[f]])
+            if a != b:
+                ctx.violation("at log level DEBUG %s comes out as %r, otherwise %r" % (f, a, b), inp)
+                break
